@@ -220,12 +220,16 @@ def sim_filter_class():
                 stall = spec.get('stall_at')
                 if stall is not None and stall[0] == k:
                     w.ev('stall_begin', st.nid, st.proc.inc, k, stall[1])
+                    w.stall_info = (sched.now, stall[1])
                     d += stall[1]
                 sched.sleep_ns(max(d, w.min_cpu_ns), 'process')
                 rs = set()
                 key = None
+                eph_from = st.proc.data.get('eph_from')
+                if eph_from is None:
+                    eph_from = st.proc.data['eph_from'] = {s['from'] for s in spec.get('sources') or [] if s.get('eph')}
                 for fd in desc.values():
-                    if fd['r']:
+                    if fd['r'] and fd['o'] not in eph_from:      # provenance follows the synchronized stream only
                         rs.update(fd['r'])
                 roots = sorted(rs, key=_root_key)
                 key = _root_key(roots[0])[2] if roots else k
@@ -339,6 +343,7 @@ class MQWorld:
         self.lineage = {}          # proc -> capturing client (C18 / C15)
         self.exit_reasons = {}
         self.ostats = _Counter()
+        self.stall_info = None
         self.net.taps.append(self._tap)
 
     # -- event log ----------------------------------------------------------------------------------------------------
@@ -449,14 +454,36 @@ class MQWorld:
                 if s.owner is not None:
                     rec['dropped'].setdefault(s.owner.key, []).append(topic)
             self.ev('pub', okey, sock.sid, mid, topic)
+        elif kind == 'pullrecv':
+            try:
+                env = json.loads(parts[0])
+            except Exception:
+                return
+            frm = extra.a.owner.key if extra is not None and extra.a.owner is not None else '?'
+            self.events.append(('pullrecv', self.sched.step, self.sched.now, okey, frm, env.get('mid'), env.get('eph', 0),
+                                bool(env.get('new')), env.get('cid')))
         elif kind == 'push':
             try:
                 env = json.loads(parts[0])
             except Exception:
                 return
             self.reqs.append((self.sched.step, self.sched.now, okey, sock.sid, env.get('mid'), env.get('eph', 0),
-                              bool(env.get('new')), extra))
+                              bool(env.get('new')), extra, self.node_of_endpoint(sock.connectors[0].key)
+                              if sock.connectors else None))
             self.ev('push', okey, sock.sid, env.get('mid'), extra)
+
+    def node_of_endpoint(self, key):
+        """Node id that binds the given endpoint key (request endpoints are pub port + 1)."""
+        cache = self.__dict__.setdefault('_ep2node', {})
+        if not cache:
+            for idx, nid in enumerate(self.sc['order']):
+                spec = self.sc['nodes'][nid]
+                for j in range(spec.get('n_out', 1)):
+                    cache[('tcp', node_port(idx, j))] = nid
+                    cache[('tcp', node_port(idx, j) + 1)] = nid
+                    cache[('ipc', f'simpipe{idx}_{j}')] = nid
+                    cache[('ipc', f'simpipe{idx}_{j}.req')] = nid
+        return cache.get(key)
 
     # -- log capture --------------------------------------------------------------------------------------------------
 
